@@ -57,6 +57,8 @@ theorem top_level_only_starters (g : GlobalTable) :
       | type t => simp at h; subst h; exact hmain
 
 open Spl.ScopeExact in
+/- non-vacuity of the hypothesis `wellTyped p = true`: the kernel-evaluated examples of Props/C03.lean (`specVerdict … = some true`
+   for a program with a type declaration, a procedure with reference and value parameters and `main`). -/
 /-- **Statement and type positions of a well-typed program are scope-exact.**  For every program the typing
     specification accepts, with the table `build` returns for it: at a statement position of procedure `pd` (the
     handler passes the local table of the entry found under the procedure's name) the proposals are the four
